@@ -624,7 +624,14 @@ func c06HealthCheckToggled(r *ev.Run) {
 	for round := 0; round < rounds; round++ {
 		// (1) health check on: after >= 5 failed probes member 1 gets nothing
 		if !waitProbes(5) {
-			r.Inconclusive("health-check-toggled:no-probes")
+			if round == 0 || !s.Alive() {
+				r.Inconclusive("health-check-toggled:no-probes")
+				return
+			}
+			// the previous round ended with an accepted configuration update that adds the health check: its probes must arrive
+			got, failed := connect(12)
+			r.Violation("C06:unhealthy-host-used:health-check-added-by-update", "a configuration update that adds a health check (interval 25ms) was accepted, but the member that fails its probes saw fewer than 5 probes in 4s: nothing will ever take it out of the selection",
+				map[string]interface{}{"round": round, "relayed_to_healthy_member": got[0], "relayed_to_failing_member": got[1], "connections_not_served": failed, "probes_seen_by_failing_member_in_total": atomic.LoadInt64(&bes[1].probes)})
 			return
 		}
 		got, failed := connect(12)
